@@ -162,6 +162,20 @@ fn add(db: &mut Database, t: usize, index: u16, svar: u8, class: Option<EventCla
     }
 }
 
+/// take a point out of the database
+pub fn remove(db: &mut Database, t: usize, index: u16) -> bool {
+    match t {
+        0 => Remove::<BinaryInput>::remove(db, index),
+        1 => Remove::<DoubleBitBinaryInput>::remove(db, index),
+        2 => Remove::<BinaryOutputStatus>::remove(db, index),
+        3 => Remove::<Counter>::remove(db, index),
+        4 => Remove::<FrozenCounter>::remove(db, index),
+        5 => Remove::<AnalogInput>::remove(db, index),
+        6 => Remove::<AnalogOutputStatus>::remove(db, index),
+        _ => Remove::<OctetString>::remove(db, index),
+    }
+}
+
 /// write a new unique value for a point; returns the mirror entry
 fn update(
     sim: &OutSim,
@@ -360,6 +374,9 @@ async fn scenario(a: &ShardArgs, idx: u64) {
         }
     }
     let layout2 = layout.clone();
+    let mut layout = layout;
+    // points come and go while a series is under way (one scenario in four)
+    let dynamic = r.chance(1, 4);
     let mut sim = OutSim::start_with(cfg.clone(), |db| {
         for (t, i, sv) in &layout2 {
             add(
@@ -468,6 +485,8 @@ async fn scenario(a: &ShardArgs, idx: u64) {
         }
         let rd = b.done();
         let snapshot = mirror.clone();
+        let mut removed_now: std::collections::BTreeSet<(usize, u16)> = Default::default();
+        let mut added_now: std::collections::BTreeSet<(usize, u16)> = Default::default();
         hist.push(format!(
             "t={} -> READ seq={seq} {:?} {}",
             sim.now(),
@@ -588,6 +607,43 @@ async fn scenario(a: &ShardArgs, idx: u64) {
                     );
                 }
                 out::count("updates_between_fragments", 1);
+            }
+            // points removed from and added to the database while the fragment awaits its confirm: whether such a point still
+            // shows up in the rest of the series is left open, every other point is reported as if nothing had happened
+            if dynamic && r.chance(1, 2) {
+                for _ in 0..r.range(1, 3) {
+                    if r.bool() && layout.len() > 1 {
+                        let k = r.usize_below(layout.len());
+                        let (t, i, _) = layout.remove(k);
+                        let gone = sim.db(|db| remove(db, t, i));
+                        if !gone {
+                            viol("remove_refused", &format!("t{t}"), format!("removing the existing point type {t} index {i} returned false"), &hist);
+                        }
+                        mirror.remove(&(t, i));
+                        removed_now.insert((t, i));
+                        hist.push(format!("t={} (point type {t} index {i} removed)", sim.now()));
+                        out::count("points_removed_during_series", 1);
+                    } else {
+                        let t = r.usize_below(8);
+                        let i = r.range(0, 45) as u16;
+                        if mirror.contains_key(&(t, i)) {
+                            continue;
+                        }
+                        let sv = *r.pick(svars(t));
+                        let class = if with_events { Some(EventClass::Class1) } else { None };
+                        sim.db(|db| add(db, t, i, sv, class));
+                        let pv = update(&sim, &mut r, t, i, &mut counter, sv, false);
+                        mirror.insert((t, i), pv);
+                        layout.push((t, i, sv));
+                        added_now.insert((t, i));
+                        hist.push(format!("t={} (point type {t} index {i} added)", sim.now()));
+                        out::count("points_added_during_series", 1);
+                    }
+                }
+                settle().await;
+                if sim.collect().iter().any(|x| x.fragment().is_some()) {
+                    viol("series_not_gated", "add-remove", "fragment sent after a point was added or removed, without a confirm".into(), &hist);
+                }
             }
             let act = r.weighted(&[70, 8, 8, 5, 5, 4]);
             match act {
@@ -711,6 +767,19 @@ async fn scenario(a: &ShardArgs, idx: u64) {
         if !decode_ok {
             continue;
         }
+        if !removed_now.is_empty() || !added_now.is_empty() {
+            let touched = |m: &Meas| -> bool {
+                let Some(t) = TYPES.iter().position(|x| *x == m.ptype) else {
+                    return false;
+                };
+                let key = (t, m.index as u16);
+                removed_now.contains(&key) || (added_now.contains(&key) && !snapshot.contains_key(&key))
+            };
+            let before = objs.len();
+            objs.retain(|m| !touched(m));
+            out::count("objects_of_added_or_removed_points_set_aside", (before - objs.len()) as u64);
+            out::count("series_with_points_added_or_removed", 1);
+        }
         // expected object list, header by header
         let complete = ended_by == "complete";
         let mut pos = 0usize;
@@ -731,7 +800,7 @@ async fn scenario(a: &ShardArgs, idx: u64) {
                             0u8,
                             snapshot
                                 .keys()
-                                .filter(|k| k.0 == t)
+                                .filter(|k| k.0 == t && !removed_now.contains(k))
                                 .map(|k| k.1)
                                 .collect::<Vec<u16>>(),
                         )
@@ -743,6 +812,7 @@ async fn scenario(a: &ShardArgs, idx: u64) {
                         .keys()
                         .filter(|k| {
                             k.0 == *t
+                                && !removed_now.contains(k)
                                 && range.map(|(lo, hi)| k.1 >= lo && k.1 <= hi).unwrap_or(true)
                         })
                         .map(|k| k.1)
